@@ -25,9 +25,15 @@ THEOREMS = [
     "BeyondVerif.C14.copy_rebases",
     "BeyondVerif.C14.local_orthonormal",
     "BeyondVerif.C14.local_equivariant",
+    "BeyondVerif.C14.rot_cross",
+    "BeyondVerif.C14.rot_norm",
     "BeyondVerif.C14.nonrotating_frames",
     "BeyondVerif.C14W.local_after_reframe_differs",
     "BeyondVerif.C14W.fixed_model_agrees",
+    "BeyondVerif.C14W.frame_after_local_recovers",
+    "BeyondVerif.C14W.laws",
+    "BeyondVerif.C14W.loc_orth",
+    "BeyondVerif.C14W.loc_equivariant",
 ]
 LEVEL_TEXT = ("Lean theorems about a state-machine model of Cov (tag, _orb_frame, private state copy and the frame it is currently expressed in, matrix) that is "
               "generic in the matrix type: over real matrices every hop is a congruence M C M^T (symmetry, positive semi-definiteness and the characteristic polynomial "
@@ -522,9 +528,51 @@ def oracle(ctx, widened):
             rel = float(np.abs(np.array(sv.cov) - refk).max() / max(np.abs(refk).max(), 1e-300))
             out.fail("path-dependent:" + fam2, "QSW/TNW covariance requested after the state (and its covariance) changed frame is not the one of the inertial state's axes",
                      dict(inp, g=g, mids=mids, local=k), observed={"rel_diff": rel}, expected=refk.tolist())
+    named_tags(out, rng, 40 if (widened or ctx.thorough) else 6)
     laws(out, rng, 40 if (widened or ctx.thorough) else 8)
     out.sample({"checks": "seq vs single hop, symmetry, PSD, position-block spectrum, back conversion, reference R C R^T, cov follows state (copy / in place / then local), conversion-matrix laws"})
     return out
+
+
+def named_tags(out, rng, n):
+    """`Cov(orb, values, frame)` documents `frame (str)`: a covariance created with the *name* of its frame
+    must convert, and follow its state, like one created with the Frame object"""
+    import numpy as np
+    from beyond.orbits.cov import Cov
+    from beyond.frames.frames import get_frame
+    for _ in range(n):
+        f0 = rng.choice(NONROT)
+        x = gen_state(rng)
+        date = gen_date(rng)
+        c0, sp, sv_, rank = gen_cov(rng)
+        s = scales(c0, sp, sv_)
+        t = rng.choice([f for f in FRAMES if f != f0] + LOCAL)
+        inp = {"start": f0, "seq": [t], "x": x, "date": date, "cov": c0.tolist(), "tag_given_as": "str"}
+        ref, _ = make_cov(x, date, f0, c0)
+        ref.frame = t
+        sv = make_sv(x, date, f0)
+        out.count(key=("named", f0, t, tuple(x)), kind="named-tag-hop")
+        try:
+            c = Cov(sv, c0.copy(), f0)
+            c.frame = t
+            if not mclose(np.array(c), np.array(ref), s):
+                out.fail("string-frame-tag:wrong-matrix", "a covariance created with the name of its frame converts differently from one created with the Frame object", inp,
+                         observed=np.array(c).tolist(), expected=np.array(ref).tolist())
+        except Exception as e:  # noqa: BLE001 - any exception here is the failure being recorded
+            out.fail("string-frame-tag:" + type(e).__name__, "a covariance created with the name of its frame (documented `frame (str)`) cannot be converted", inp,
+                     observed=f"{type(e).__name__}: {e}", expected=np.array(ref).tolist())
+        g = rng.choice([f for f in FRAMES if f != f0])
+        sv = make_sv(x, date, f0)
+        sv.cov = Cov(sv, c0.copy(), f0)
+        out.count(key=("named-follow", f0, g, tuple(x)), kind="named-tag-follows")
+        try:
+            sv.frame = g
+            tag = sv.cov.frame if isinstance(sv.cov.frame, str) else sv.cov.frame.name
+            if tag != g:
+                out.fail("string-frame-tag:not-following", "a covariance created with the name of its state's frame does not follow the state into another frame (it keeps its label and values)",
+                         dict(inp, seq=[g]), observed={"state": sv.frame.name, "cov": tag}, expected={"state": g, "cov": g})
+        except Exception as e:  # noqa: BLE001
+            out.fail("string-frame-tag:" + type(e).__name__, "state with a name-tagged covariance cannot change frame", dict(inp, seq=[g]), observed=f"{type(e).__name__}: {e}")
 
 
 def laws(out, rng, n):
@@ -541,12 +589,22 @@ def laws(out, rng, n):
         s = np.array([1.0] * 3 + [1e-4] * 3)
         w = np.outer(s, 1 / s)
         if np.abs((mbc @ mab - mac) / w).max() > 1e-9:
-            out.fail("conv-law:composition", "M(b->c) M(a->b) != M(a->c) for the real orientation matrices", {"a": a, "b": b, "c": c, "date": date},
+            out.fail("conv-law:composition", "M(b->c) M(a->b) != M(a->c) for the real orientation matrices", {"a": a, "b": b, "c": c, "date": dl},
                      observed=float(np.abs((mbc @ mab - mac) / w).max()))
+        # to_local is equivariant under the rate-free conversions: to_local(k, M x) = to_local(k, x) M^T
+        if np.abs(mab[3:, :3]).max() == 0:
+            from beyond.frames.local import to_local
+            x = np.array(gen_state(rng))
+            k = rng.choice(LOCAL)
+            l1, l2 = to_local(k, mab @ x), to_local(k, x) @ mab.T
+            out.count(key=None, kind="local-equivariance")
+            if np.abs(l1 - l2).max() > 1e-9:
+                out.fail("local-equivariance", "to_local(M x) != to_local(x) M^T for a rate-free conversion M", {"a": a, "b": b, "date": dl, "x": x.tolist(), "local": k},
+                         observed=float(np.abs(l1 - l2).max()))
         if not np.array_equal(oa.convert_to(date, oa), np.identity(6)):
-            out.fail("conv-law:identity", "M(a->a) is not the identity", {"a": a, "date": date})
+            out.fail("conv-law:identity", "M(a->a) is not the identity", {"a": a, "date": dl})
         if np.abs(mab[:3, 3:]).max() != 0 or np.abs(mab[:3, :3] @ mab[:3, :3].T - np.identity(3)).max() > 1e-12:
-            out.fail("conv-law:shape", "M(a->b) has a non-zero upper-right block or a non-orthogonal position block", {"a": a, "b": b, "date": date})
+            out.fail("conv-law:shape", "M(a->b) has a non-zero upper-right block or a non-orthogonal position block", {"a": a, "b": b, "date": dl})
 
 
 def replay(f):
